@@ -82,7 +82,28 @@ pub const TARGETS: &[Target] = &[
     ("glueloops", "GlueLoops", glueloops as Gen),
     ("listown", "ListOwn", listown as Gen),
     ("mirlower", "MirLower", mirlower as Gen),
+    ("glueloopsdrv", "GlueLoopsDrv", glueloops_drv as Gen),
 ];
+
+/// What the DRIVER runs its glue model on (`c03 glue-check` / `glue-shallow`): the loops and
+/// decisions as `glueloops` reads them from the current source — the identical text — and, when
+/// that extraction fails (the source left the translated subset: `Generated/GlueLoops.lean` is
+/// then a stub that does not compile and every theorem over it is a broken obligation), the
+/// definitions as they were extracted from the tree the theorems were last proved on
+/// (`c03_glueloops_ref.lean`, a verbatim copy of a generated file).  The driver therefore still
+/// builds, answers `c03 check`, and its glue model states what a correct glue does, so that the
+/// search for a concrete failing input does not depend on a driver binary left over from an
+/// earlier run.  No theorem imports this module.
+fn glueloops_drv(repo: &Path) -> Result<String, String> {
+    match glueloops(repo) {
+        Ok(body) => Ok(body),
+        Err(e) => Ok(format!(
+            "/- FALLBACK for the driver only: extraction of `glueloops` failed ({}); these are the definitions last verified. -/\n{}",
+            e.replace('\n', " ").replace("-/", "- /"),
+            include_str!("c03_glueloops_ref.lean")
+        )),
+    }
+}
 
 fn norm<T: ToTokens>(t: &T) -> String {
     t.to_token_stream().to_string().replace(' ', "")
@@ -899,6 +920,21 @@ fn dynval_entries(repo: &Path) -> Result<Vec<(String, String)>, String> {
             return Err(format!("basic.rs: `{name}` must hand `ptr` to exactly one function, found {calls:?}"));
         }
         let callee = calls[0].strip_prefix("self.").ok_or(format!("basic.rs: `{name}` hands `ptr` to `{}`, expected a method of the list", calls[0]))?;
+        // The hand-off must be UNCONDITIONAL: the argument belongs to this function (the MIR has
+        // no Drop for it) and only the ErasedList function releases or stores it, so a path that
+        // leaves before the call — an early return for an empty list, a `?`, a branch — forgets
+        // the value.  Between `let ptr = …;` and the call nothing but `unsafe {` or
+        // `let <name> = unsafe {` may stand.
+        let i = body.find("(ptr)").unwrap();
+        let before = body[..i].strip_suffix(calls[0]).unwrap_or(&body[..i]);
+        let lead = format!("{{letptr=unsafe{{NonNull::new_unchecked({arg}.0)}};");
+        let mid = before.strip_prefix(lead.as_str()).ok_or(format!(
+            "basic.rs: `{name}` does something before it turns its DynVal `{arg}` into `ptr` (`{}`): the hand-off to `{callee}` must be unconditional", &before[..before.len().min(60)]))?;
+        let plain_let = mid.strip_prefix("let").and_then(|r| r.strip_suffix("=unsafe{"))
+            .is_some_and(|id| !id.is_empty() && id.chars().all(|c| c.is_alphanumeric() || c == '_'));
+        if !(mid == "unsafe{" || plain_let) {
+            return Err(format!("basic.rs: `{name}` has `{mid}` between `let ptr` and the call of `{callee}`: every path must hand the element to the list function (an early exit forgets an owned value)"));
+        }
         out.push((name.to_string(), callee.to_string()));
     }
     if out.is_empty() {
